@@ -77,3 +77,32 @@ Proof.
   split; [|vm_compute; repeat split].
   unfold EarlyShape. vm_compute. repeat split. eexists. split; reflexivity.
 Qed.
+
+(** ** Retry ([retransmit_all_for_0rtt]) *)
+Definition case_lone_fin : ops :=
+  [[0; 0; 0; 0; 1048576]; [1; 5000; 2; 1; 500; 500; 500]; [2; 0]; [4; 0]; [9; 1200]].
+
+(** Before 'fix: resend the FIN of an early stream finished without data after a Retry'
+    ([retry_with false]) the stream is neither [fin_pending] nor queued after the Retry. *)
+Lemma retry_lone_fin_refuted_before_fix :
+  match retry_with false (state_after case_lone_fin) with
+  | Some s' =>
+      match lookup 0 s'.(send) with
+      | Some (Some x) => is_pending x = false /\ s'.(pendq) = [] /\ x.(s_state) = 1
+      | _ => False
+      end
+  | None => False
+  end.
+Proof. vm_compute. repeat split. Qed.
+
+(** With the repaired code it is pending again. *)
+Lemma retry_lone_fin_fixed :
+  match do_retry (state_after case_lone_fin) with
+  | Some s' =>
+      match lookup 0 s'.(send) with
+      | Some (Some x) => x.(s_fin_pending) = true /\ s'.(pendq) = [0] /\ x.(s_unsent) = 0
+      | _ => False
+      end
+  | None => False
+  end.
+Proof. vm_compute. repeat split. Qed.
